@@ -110,3 +110,19 @@ func init() {
 		NonTrivial: func(fp string) bool { return true },
 	}
 }
+
+func init() {
+	metaTable["C11"] = propMeta{Level: "exploration", CrashIsViolation: true,
+		Assumptions: []string{
+			"oracle = independent reference codec (package wire) written from the RFC 5766/6062/6156 layouts",
+			"in-process calls of internal/proto codecs compiled from /repo's working tree with -race -tags verif",
+			"contents of payloads/values other than the enumerated short strings are PRNG samples",
+		},
+		Rule: "enumerated sub-domains: all 65536 channel numbers x payload lengths {0..5,7,8} (+1500, 65535 for every 64th/8th number); every payload length 0..4159 (quick) / 0..65535 (thorough) x 3 numbers; raw buffers for header classes x declared-length x (actual-declared) in {-5,-1,0,1,2,3,7}; per attribute: typed round trips incl. full REQUESTED-TRANSPORT domain, all raw values of length 0..2 and random raw values of each length 3..64; " +
+			"non-trivial fingerprint = (sub-domain slice) or (number class x declared/actual relation) or attribute name",
+		NonTrivial: func(fp string) bool { return true },
+		Exhaustive: func(tier string, ev map[string]int) bool {
+			return ev["chan-number-covered"] >= 65536 && ev["attr-2byte-prefix-covered"] >= 256*11 && (tier != "thorough" || ev["chan-length-covered"] >= 65536)
+		},
+	}
+}
